@@ -299,6 +299,133 @@ theorem tramp_body_tail (fuel : Nat) (cfg : Cfg) (h : Nat) (f : Func) (dflts : L
   · intro l hl hgt
     simp [hl, hgt]
 
+/-! ### fuel monotonicity -/
+
+def Res.isOof : Res → Bool
+  | .oof => true
+  | _ => false
+
+@[simp] theorem Res.isOof_val (v) : (Res.val v).isOof = false := rfl
+@[simp] theorem Res.isOof_viol (v) : (Res.viol v).isOof = false := rfl
+@[simp] theorem Res.isOof_stuck (v) : (Res.stuck v).isOof = false := rfl
+@[simp] theorem Res.isOof_tail (v) : (Res.tail v).isOof = false := rfl
+@[simp] theorem Res.isOof_oof : Res.oof.isOof = true := rfl
+
+/-- an `Except Res α` outcome is "out of fuel" -/
+def exOof {α : Type} : Except Res α → Bool
+  | .ok _ => false
+  | .error r => r.isOof
+
+@[simp] theorem exOof_ok {α} (a : α) : exOof (Except.ok a : Except Res α) = false := rfl
+@[simp] theorem exOof_error {α} (r : Res) : exOof (Except.error r : Except Res α) = r.isOof := rfl
+
+/-- whatever `n` units of fuel answer, `m` units answer too -/
+structure FuelLe (n m : Nat) (cfg : Cfg) : Prop where
+  eval : ∀ fr e tail st, (eval n cfg fr e tail st).1.isOof = false → eval m cfg fr e tail st = eval n cfg fr e tail st
+  callNamed : ∀ fr f args tail st, (callNamed n cfg fr f args tail st).1.isOof = false →
+    callNamed m cfg fr f args tail st = callNamed n cfg fr f args tail st
+  builtin : ∀ fr f args tail st, (builtin n cfg fr f args tail st).1.isOof = false →
+    builtin m cfg fr f args tail st = builtin n cfg fr f args tail st
+  callVal : ∀ fr c args tail st, (callVal n cfg fr c args tail st).1.isOof = false →
+    callVal m cfg fr c args tail st = callVal n cfg fr c args tail st
+  evalList : ∀ fr es st, exOof (evalList n cfg fr es st).1 = false →
+    evalList m cfg fr es st = evalList n cfg fr es st
+  mkClos : ∀ fr f st, (mkClos n cfg fr f st).1.isOof = false → mkClos m cfg fr f st = mkClos n cfg fr f st
+  evalDflts : ∀ fr ps st, exOof (evalDflts n cfg fr ps st).1 = false →
+    evalDflts m cfg fr ps st = evalDflts n cfg fr ps st
+  callUser : ∀ h c args st, (callUser n cfg h c args st).1.isOof = false →
+    callUser m cfg h c args st = callUser n cfg h c args st
+  tramp : ∀ h c args rec st, (tramp n cfg h c args rec st).1.isOof = false →
+    tramp m cfg h c args rec st = tramp n cfg h c args rec st
+  evalDecls : ∀ fr ds st, exOof (evalDecls n cfg fr ds st).1 = false →
+    evalDecls m cfg fr ds st = evalDecls n cfg fr ds st
+
+theorem fuelLe_zero (cfg : Cfg) (m : Nat) : FuelLe 0 m cfg := by
+  constructor <;> intros <;> simp_all [eval, callNamed, builtin, callVal, evalList, mkClos, evalDflts, callUser, tramp, evalDecls]
+
+theorem exOof_of_match {α} {x : Except Res α × St} {g : α → St → Res × St}
+    (h : (match x with | (.ok v, s) => g v s | (.error r, s) => (r, s)).1.isOof = false) : exOof x.1 = false := by
+  obtain ⟨r, s⟩ := x
+  cases r <;> simp_all
+
+theorem fuelLe_succ {cfg : Cfg} {n m : Nat} (ih : FuelLe n m cfg) : FuelLe (n + 1) (m + 1) cfg := by
+    constructor
+    case eval =>
+      intro fr e tail st h
+      cases e
+      case call f args =>
+        simp only [eval] at h ⊢
+        cases hs : fr.self with
+        | none => simp only [hs] at h ⊢; exact ih.callNamed _ _ _ _ _ h
+        | some p =>
+          obtain ⟨name, c⟩ := p
+          simp only [hs] at h ⊢
+          by_cases h1 : (decide (f = name) && (lookup f fr.env).isNone) = true
+          · simp only [h1, if_true] at h ⊢
+            by_cases h2 : (tail && cfg.tco) = true
+            · simp only [h2, if_true] at h ⊢
+              have hx : exOof (evalList n cfg fr args st).1 = false := by
+                revert h; rcases evalList n cfg fr args st with ⟨r, s⟩; cases r <;> simp
+              rw [ih.evalList _ _ _ hx]
+            · simp only [h2] at h ⊢; exact ih.callVal _ _ _ _ _ h
+          · simp only [h1] at h ⊢; exact ih.callNamed _ _ _ _ _ h
+      all_goals simp only [eval] at h ⊢
+      all_goals repeat' split at h
+      all_goals (simp_all [ih.eval, ih.mkClos, ih.evalList, ih.callVal]; done)
+    case callNamed =>
+      intro fr f args tail st h
+      simp only [callNamed] at h ⊢
+      repeat' split at h
+      all_goals (simp_all [ih.callVal, ih.builtin]; done)
+    case builtin =>
+      intro fr f args tail st h
+      simp only [builtin] at h ⊢
+      repeat' split at h
+      all_goals try (simp_all [ih.eval, ih.evalList]; done)
+    case callVal =>
+      intro fr c args tail st h
+      simp only [callVal] at h ⊢
+      repeat' split at h
+      all_goals try (simp_all [ih.evalList, ih.callUser]; done)
+    case evalList =>
+      intro fr es st h
+      simp only [evalList] at h ⊢
+      repeat' split at h
+      all_goals try (simp_all [ih.evalList, ih.eval]; done)
+    case mkClos =>
+      intro fr f st h
+      simp only [mkClos] at h ⊢
+      repeat' split at h
+      all_goals try (simp_all [ih.evalDflts]; done)
+    case evalDflts =>
+      intro fr ps st h
+      simp only [evalDflts] at h ⊢
+      repeat' split at h
+      all_goals try (simp_all [ih.evalDflts, ih.eval]; done)
+    case callUser =>
+      intro hh c args st h
+      simp only [callUser] at h ⊢
+      repeat' split at h
+      all_goals try (simp_all [ih.tramp]; done)
+    case tramp =>
+      intro hh c args rec st h
+      simp only [tramp] at h ⊢
+      repeat' split at h
+      all_goals try (simp_all [ih.tramp, ih.evalDecls, ih.eval]; done)
+    case evalDecls =>
+      intro fr ds st h
+      simp only [evalDecls] at h ⊢
+      repeat' split at h
+      all_goals try (simp_all [ih.evalDecls, ih.eval, ih.mkClos]; done)
+
+theorem fuelLe {cfg : Cfg} {n m : Nat} (h : n ≤ m) : FuelLe n m cfg := by
+  induction n generalizing m with
+  | zero => exact fuelLe_zero cfg m
+  | succ n ih =>
+    cases m with
+    | zero => omega
+    | succ m => exact fuelLe_succ (ih (by omega))
+
 /-! ### the running example: `fn f(n, acc) { if(n == 0, acc, f(n - 1, acc + n)) }` -/
 
 def sumBody : Expr :=
